@@ -173,11 +173,66 @@ func (p *PF) step(fn *ssa.Function, in ssa.Instruction, s StateSet) StateSet {
 				s = out
 			}
 			if inScope {
-				s = p.applySummary(callee, s)
+				if spec := deferFlagSpec(fn, d, callee, in); spec != nil {
+					// the literal tests captured flags whose value at THIS exit is known: analyse it for this exit alone
+					saved := activeCellFlags
+					activeCellFlags = spec
+					sub := &PF{N: p.N, Instr: p.Instr, Edge: p.Edge, InScope: p.InScope, DeepVisit: p.DeepVisit}
+					if p.DeepVisit {
+						sub.Visit = p.Visit
+					}
+					var out StateSet
+					for _, e := range sub.Exits(callee, s) {
+						out |= e.States
+					}
+					activeCellFlags = saved
+					s = out
+				} else {
+					s = p.applySummary(callee, s)
+				}
 			}
 		}
 	}
 	return s
+}
+
+// deferFlagSpec: the deferred callee is a function literal of fn that captures boolean local variables of fn; for each such
+// variable whose stores in fn are all constants and of which exactly one reaches the exit `at`, the value it has there.
+func deferFlagSpec(fn *ssa.Function, d *ssa.Defer, callee *ssa.Function, at ssa.Instruction) map[*ssa.Alloc]bool {
+	mc, ok := d.Call.Value.(*ssa.MakeClosure)
+	if !ok || callee.Parent() != fn {
+		return nil
+	}
+	var out map[*ssa.Alloc]bool
+	for _, b := range mc.Bindings {
+		cell, ok := b.(*ssa.Alloc)
+		if !ok || cell.Parent() != fn {
+			continue
+		}
+		bt, isB := cell.Type().(*types.Pointer).Elem().Underlying().(*types.Basic)
+		if !isB || bt.Kind() != types.Bool {
+			continue
+		}
+		allConst := true
+		for _, st := range storesTo(cell) {
+			if k, isK := st.Val.(*ssa.Const); !isK || k.Value == nil || st.Parent() != fn {
+				allConst = false
+			}
+		}
+		if !allConst {
+			continue
+		}
+		rs := reachingStores(cell, at)
+		if len(rs) != 1 {
+			continue
+		}
+		k := rs[0].Val.(*ssa.Const)
+		if out == nil {
+			out = map[*ssa.Alloc]bool{}
+		}
+		out[cell] = constant.BoolVal(k.Value)
+	}
+	return out
 }
 
 // deferredCall wraps a Defer when it is replayed at RunDefers so rules can tell "defer registered"
@@ -216,7 +271,7 @@ func (p *PF) run(fn *ssa.Function, entry StateSet, visit func(fn *ssa.Function, 
 		for idx, succ := range b.Succs {
 			es := s
 			// a branch on the flag of the active specialisation (variants.go): only the live side is followed
-			if activeSpec != nil && len(b.Instrs) > 0 {
+			if (activeSpec != nil || len(activeCellFlags) > 0) && len(b.Instrs) > 0 {
 				if iff, isIf := b.Instrs[len(b.Instrs)-1].(*ssa.If); isIf {
 					if v, ok := specFlagValue(iff.Cond); ok && v != (idx == 0) {
 						continue
